@@ -131,6 +131,9 @@ def cgo_stress(ctx, binp, seconds):
     return True
 
 
+LIB_FRAME = "github.com/google/wuffs/lib/"
+
+
 def run_harness(ctx, binp, args, out):
     r = ctx.run([binp] + args + ["-out", out], timeout=3000)
     if r.returncode != 0 and any(m in r.stderr for m in GC_FATAL):
@@ -138,6 +141,40 @@ def run_harness(ctx, binp, args, out):
         # (it avoids the construct, so this should not happen): one more try.
         ctx.notes.append("racireplay died with a GC fatal error (cgozlib z_stream in Go memory); retried")
         r = ctx.run([binp] + args + ["-out", out], timeout=3000)
+    skipped = []
+    while r.returncode != 0 and LIB_FRAME in r.stderr and ("panic:" in r.stderr or "fatal error:" in r.stderr) and len(skipped) < 20:
+        # The process died in a goroutine of the library itself (the concurrent reader's workers): the caller's
+        # recover() cannot catch that - "never panic" is broken for whoever uses the package.  Which case?  The cases in
+        # flight are read from the progress file; each is run again alone; the ones that kill the process again are
+        # reported and left out of the next run of all cases.
+        prog = out + ".progress"
+        r2 = ctx.run([binp] + args + ["-out", out, "-progress", prog] + (["-skip", ",".join(map(str, skipped))] if skipped else []), timeout=3000)
+        if r2.returncode == 0:
+            r = r2
+            if not skipped:
+                ctx.notes.append("racireplay died once in a library goroutine and not when run again: %s" % r.stderr[:300])
+            break
+        started, ended = [], set()
+        for l in open(prog):
+            c, i = l.split()
+            (started.append(int(i)) if c == "s" else ended.add(int(i)))
+        culprits = []
+        for i in [i for i in started if i not in ended]:
+            r3 = ctx.run([binp] + args + ["-out", out + ".one", "-only", str(i), "-workers", "1"], timeout=600)
+            if r3.returncode != 0 and LIB_FRAME in r3.stderr:
+                culprits.append((i, r3.stderr))
+        if not culprits:
+            raise ToolingError("racireplay dies in a library goroutine, but on no single case in flight: %s" % r2.stderr[:1500])
+        for i, err in culprits:
+            head = [l for l in err.splitlines() if l.startswith("panic:") or l.startswith("fatal error:")][:1]
+            frames = [l.split("(")[0] for l in err.splitlines() if l.startswith(LIB_FRAME)][:4]
+            ctx.violation("reading the file of case %d (harness arguments %s) kills the process: %s in a goroutine of the library (%s) - no caller can recover from it" % (
+                i, " ".join(args), (head or ["?"])[0], " <- ".join(frames)),
+                {"key": "library-goroutine-panic:%s" % (frames[0] if frames else "?"), "case": i, "args": args, "stderr": err[:4000]})
+            skipped.append(i)
+        r = r2
+    if skipped and r.returncode != 0:
+        r = ctx.run([binp] + args + ["-out", out, "-skip", ",".join(map(str, skipped))], timeout=3000)
     if r.returncode != 0:
         raise ToolingError("racireplay failed (%d): %s\n[...]\n%s" % (r.returncode, r.stderr[:1500], r.stderr[-1500:]))
     try:
